@@ -109,12 +109,20 @@ class Sym(object):
                 tmpl = expr.func.value.value
                 kws = {k.arg: self.term(k.value, local)
                        for k in expr.keywords}
+                pos = [self.term(a, local) for a in expr.args]
                 out = []
+                auto = 0
                 for lit, fld, _spec, _conv in \
                         string.Formatter().parse(tmpl):
                     out.append(lit)
+                    if fld == '':
+                        fld = str(auto)     # '{}' auto-numbered field
+                        auto += 1
                     if fld:
-                        val = kws.get(fld, '?' + fld)
+                        if fld.isdigit() and int(fld) < len(pos):
+                            val = pos[int(fld)]
+                        else:
+                            val = kws.get(fld, '?' + fld)
                         if val.startswith("'") and val.endswith("'"):
                             out.append(val[1:-1])
                         else:
@@ -148,8 +156,18 @@ class Sym(object):
 
     # -- walking -------------------------------------------------------------
     def walk(self, stmts):
+        pushed = 0
         for stmt in stmts:
             self.stmt(stmt)
+            # `if C: ... return`: what follows in the block runs under not C
+            if isinstance(stmt, ast.If) and not stmt.orelse and \
+                    stmt.body and isinstance(
+                        stmt.body[-1], (ast.Return, ast.Raise,
+                                        ast.Continue, ast.Break)):
+                self.conds.append(_neg(self.term(stmt.test)))
+                pushed += 1
+        for _ in range(pushed):
+            self.conds.pop()
 
     def stmt(self, stmt):
         if isinstance(stmt, ast.For) and \
@@ -187,10 +205,10 @@ class Sym(object):
             return
         if isinstance(stmt, ast.If):
             cond = self.term(stmt.test)
-            self.conds.append(cond)
+            self.conds.append(_canon(cond))
             self.walk(stmt.body)
             self.conds.pop()
-            self.conds.append('not(%s)' % cond)
+            self.conds.append(_neg(cond))
             self.walk(stmt.orelse)
             self.conds.pop()
             return
@@ -265,6 +283,35 @@ class Sym(object):
         }
 
 
+_FLIP = {' Is ': ' IsNot ', ' IsNot ': ' Is ', ' Eq ': ' NotEq ',
+         ' NotEq ': ' Eq ', ' In ': ' NotIn ', ' NotIn ': ' In '}
+
+
+def _canon(cond):
+    """not(not(X)) -> X ; not(A Is B) -> A IsNot B."""
+    while cond.startswith('not(not(') and cond.endswith('))'):
+        cond = cond[8:-2]
+    if cond.startswith('not(') and cond.endswith(')'):
+        inner = cond[4:-1]
+        for op, flipped in _FLIP.items():
+            if inner.count(op) == 1 and '(' not in inner.split(op)[1] and \
+                    ' and ' not in inner and ' or ' not in inner:
+                return inner.replace(op, flipped)
+    return cond
+
+
+def _neg(cond):
+    return _canon('not(%s)' % cond)
+
+
+def _resource_held(cond):
+    """The finish routine works only while the network resource is still
+    allocated (a repeated finish finds it gone and has nothing to undo):
+    that guard is judged by C16.3, not by the pairing."""
+    return cond.startswith('network_client.get(') and \
+        cond.endswith(' IsNot None')
+
+
 _IMPLIES = [
     # creation condition  =>  removal condition
     ("getattr(app,'passthrough')", "hasattr(app,'passthrough')"),
@@ -276,7 +323,7 @@ def _implied(create_conds, remove_conds):
     for pre, post in _IMPLIES:
         if pre in have:
             have.add(post)
-    return all(c in have for c in remove_conds)
+    return all(c in have or _resource_held(c) for c in remove_conds)
 
 
 def _coverage(ctx):
